@@ -17,7 +17,8 @@ META = {
             'model and specification are run against the real CategoryFilter on generated and exhaustively enumerated rule texts.',
     'note': 'Trusted: Coq 8.16.1 kernel (vm_compute only for the closed configuration check and the example), no axioms; '
             'tools/s2c/category.py (regex translation of categoryfilter.cpp and of the stringToQtMsgType table), extraction '
-            '(ExtrOcamlBasic only) and ocaml/drv_category.ml, harness/h_category.cpp. Modelled, not verified: '
+            '(ExtrOcamlBasic only) and ocaml/drv_category.ml, harness/h_category.cpp (also offers Qt own QLoggingCategory as a cross-check on the rule subset Qt supports). '
+            'Modelled, not verified: '
             'QRegularExpression/PCRE2 (the rule regex is modelled as: last "=", ASCII \\s trimming, lazy name + optional suffix; '
             'escape + ".*" + \\A..\\z/DotMatchesEverything as a glob over UTF-16 code units), QString::replace/split, '
             'QString::fromUtf8 of the category. Outside the model: ill-formed UTF-16 in rules (lone surrogates), NUL in rule '
@@ -308,6 +309,27 @@ def py_rules(text):
     return out
 
 
+def line_class(line):
+    """which branch of the line parser (the case split of parse_line / LineOK) a line exercises"""
+    if line == '':
+        return 'empty_part_skipped'
+    if '=' not in line:
+        return 'no_equals'
+    l, r = line.rsplit('=', 1)
+    ws = ' \t\n\r\x0b\x0c'
+    if r.strip(ws) not in ('true', 'false'):
+        return 'value_not_true_false'
+    core = l.strip(ws)
+    if core == '':
+        return 'empty_name'
+    if any(c in ws for c in core):
+        return 'blank_inside_name'
+    for sfx in ('.debug', '.info', '.warning', '.critical'):
+        if core.endswith(sfx):
+            return 'suffix_only_name_is_untyped' if core == sfx else 'typed'
+    return 'untyped_with_equals_in_name' if '=' in core else 'untyped'
+
+
 def py_stats(rules, cat):
     """(verdict string, number of rules matching per type)"""
     v, nm = '', []
@@ -385,13 +407,15 @@ def run():
 
     evaluations = 0
     py_diff = 0
-    match_hist, parsed_hist = collections.Counter(), collections.Counter()
+    match_hist, parsed_hist, line_hist = collections.Counter(), collections.Counter(), collections.Counter()
     dis_model, falsified = [], []
     vec_hist = collections.Counter()
     nontrivial = set()
     for case, a, b, mk in zip(cases, out_i, out_m, marks):
         va, vb, vm = a.split(','), b.split(','), mk.split(',')
         pr = py_rules(case[0])
+        for ln in re.split('[;\n]', case[0]):
+            line_hist[line_class(ln)] += 1
         parsed_hist['accepted_lines_%d' % min(len(pr), 6)] += 1
         for ci, cat in enumerate(case[1]):
             pv, nm = py_stats(pr, cat)
@@ -524,6 +548,7 @@ def run():
                     'disagreements_model_vs_impl': len(dis_model), 'oracle_evaluated_on_impl_verdicts': evaluations,
                     'oracle_falsified': len(falsified), 'verdict_vector_histogram': dict(vec_hist),
                     'accepted_lines_per_text_histogram': dict(parsed_hist), 'matching_rules_per_evaluation_histogram': dict(match_hist),
+                    'line_parser_branch_histogram': dict(line_hist),
                     'python_reference_vs_impl_differences': py_diff,
                     'qt_crosscheck': {'rule_texts': len(qcases), 'evaluations': qt_eval, 'pairs_with_a_blocked_type': qt_blocked,
                                       'differences': len(qt_diff), 'pattern_shapes': dict(qh),
